@@ -52,8 +52,9 @@ import re as _re_mod
 
 # side-effect-free standard-library modules the evaluated code may call on concrete values: they are the language's primitives here,
 # exactly like int() or str.split(); nothing of the repository runs through them
+import copy as _copy_mod
 import math as _math_mod
-PURE_STDLIB = {"re": _re_mod, "datetime": _datetime_mod, "calendar": _calendar_mod, "collections": _collections_mod, "math": _math_mod}
+PURE_STDLIB = {"re": _re_mod, "datetime": _datetime_mod, "calendar": _calendar_mod, "collections": _collections_mod, "math": _math_mod, "copy": _copy_mod}
 
 
 def _pure_stdlib(dotted: str) -> Any:
